@@ -15,13 +15,15 @@ variable {σ : Type} (H : Bytes → Bytes) (cfg : Config) (P : Provider σ) (s :
 /-- Rule 1: an invalid path is reported before anything else. -/
 theorem rule1_path (k : ErrKind) (h : canonPath cfg.opts.s3 req.path = .err k) :
     (validate H cfg P s req).out = .err .InvalidURIPath := by
-  sorry
+  rw [validate_of_fromRequestParts_err H cfg P s req _
+    (fromRequestParts_path_err H cfg.opts cfg.other req k h)]
 
 /-- Rule 4: then a malformed query string. -/
 theorem rule4_query (p : Bytes) (k : ErrKind) (hp : canonPath cfg.opts.s3 req.path = .ok p)
     (hq : parseQuery (req.query.getD []) = .err k) :
     (validate H cfg P s req).out = .err .MalformedQueryString := by
-  sorry
+  rw [validate_of_fromRequestParts_err H cfg P s req _
+    (fromRequestParts_query_err H cfg.opts cfg.other req p k hp hq)]
 
 /-- Rule 4b (folding only): then the form body — charset/encoding, then its own query syntax. -/
 theorem rule4b_body (p : Bytes) (up : QueryMap) (hp : canonPath cfg.opts.s3 req.path = .ok p)
@@ -30,7 +32,13 @@ theorem rule4b_body (p : Bytes) (up : QueryMap) (hp : canonPath cfg.opts.s3 req.
         (validate H cfg P s req).out = .err .InvalidBodyEncoding) ∧
     (∀ text k, decodeFormBody ((contentTypeCharset req.headers).bind (·.2)) cfg.other req.body = .ok text →
         parseQuery text = .err k → (validate H cfg P s req).out = .err .MalformedQueryString) := by
-  sorry
+  constructor
+  · intro hd
+    rw [validate_of_fromRequestParts_err H cfg P s req _
+      (fromRequestParts_body_err H cfg.opts cfg.other req p up _ hp hq hf hd)]
+  · intro text k hd ht
+    rw [validate_of_fromRequestParts_err H cfg P s req _
+      (fromRequestParts_body_query_err H cfg.opts cfg.other req p up text k hp hq hf hd ht)]
 
 /-- Rule 5: carrier presence / uniqueness. -/
 theorem rule5_carrier (fp : FromParts) (hfp : fromRequestParts H cfg.opts cfg.other req = .ok fp) :
@@ -38,14 +46,23 @@ theorem rule5_carrier (fp : FromParts) (hfp : fromRequestParts H cfg.opts cfg.ot
         (validate H cfg P s req).out = .err .MissingAuthenticationToken) ∧
     (∀ x y, assocGet fp.creq.headers AUTHORIZATION = some x → assocGet fp.creq.params X_AMZ_ALGORITHM = some y →
         (validate H cfg P s req).out = .err .SignatureDoesNotMatch) := by
-  sorry
+  constructor
+  · intro h1 h2
+    rw [validate_of_getAuthenticator_err H cfg P s req fp _ hfp
+      (getAuthenticator_of_getAuthParams_err H _ _ _
+        (getAuthParams_of_extract_err _ _ _ (extractAuthParams_none_none fp.creq h1 h2)))]
+  · intro x y h1 h2
+    rw [validate_of_getAuthenticator_err H cfg P s req fp _ hfp
+      (getAuthenticator_of_getAuthParams_err H _ _ _
+        (getAuthParams_of_extract_err _ _ _ (extractAuthParams_some_some fp.creq x y h1 h2)))]
 
 /-- Rules 6a-6d / 7a-7d: algorithm, parameter syntax, missing parameters — whatever the carrier
 extraction reports is what the caller sees. -/
 theorem rule67_extraction (fp : FromParts) (k : ErrKind) (hfp : fromRequestParts H cfg.opts cfg.other req = .ok fp)
     (he : extractAuthParams fp.creq = .err k) :
     (validate H cfg P s req).out = .err k := by
-  sorry
+  rw [validate_of_getAuthenticator_err H cfg P s req fp _ hfp
+    (getAuthenticator_of_getAuthParams_err H _ _ _ (getAuthParams_of_extract_err _ _ _ he))]
 
 /-- 6a: a wrong algorithm in the Authorization header is an incomplete signature; 7a: in the query
 it is a missing authentication token. 6b: a parameter without `=`; 6d/7d: a missing parameter. -/
@@ -55,19 +72,24 @@ theorem rule67_kinds (c : CanonReq) :
     (∀ alg, alg ≠ AWS4_HMAC_SHA256 → authParamsFromQuery c alg = .err .MissingAuthenticationToken) ∧
     (∀ ah k, authParamsFromHeader c ah = .err k → k = .IncompleteSignature) ∧
     (∀ alg k, authParamsFromQuery c alg = .err k → k = .IncompleteSignature ∨ k = .MissingAuthenticationToken) := by
-  sorry
+  exact ⟨fun ah h => authParamsFromHeader_bad_alg c ah h,
+    fun alg h => authParamsFromQuery_bad_alg c alg h,
+    fun ah k h => authParamsFromHeader_err_kind c ah k h,
+    fun alg k h => authParamsFromQuery_err_kind c alg k h⟩
 
 /-- Rule 8 and the declared requirements: signed-header violations come next (403). -/
 theorem rule8_requirements (fp : FromParts) (ap : AuthParams) (hfp : fromRequestParts H cfg.opts cfg.other req = .ok fp)
     (he : extractAuthParams fp.creq = .ok ap) (hr : requirementsMet cfg.reqs fp.creq.headers ap.signedHeaders = false) :
     (validate H cfg P s req).out = .err .SignatureDoesNotMatch := by
-  sorry
+  rw [validate_of_getAuthenticator_err H cfg P s req fp _ hfp
+    (getAuthenticator_of_getAuthParams_err H _ _ _ (getAuthParams_of_requirements _ _ ap he hr))]
 
 /-- Rule 9: then the date format. -/
 theorem rule9_date (fp : FromParts) (ap : AuthParams) (hfp : fromRequestParts H cfg.opts cfg.other req = .ok fp)
     (hap : getAuthParams cfg.reqs fp.creq = .ok ap) (hd : parseIso ap.timestampStr = none) :
     (validate H cfg P s req).out = .err .IncompleteSignature := by
-  sorry
+  rw [validate_of_getAuthenticator_err H cfg P s req fp _ hfp
+    (getAuthenticator_of_bad_date H _ _ ap hap hd)]
 
 /-- Rules 10/11: then expiry / not-yet-valid. Rule 12: then the credential arity. Rule 13: then the
 credential scope. In each case no key lookup takes place. -/
@@ -78,7 +100,18 @@ theorem rule10_13 (a : Authenticator) (ha : authOf H cfg req = .ok a) (hrep : no
     (inWindow a.timestamp cfg.now → (splitOn 0x2F a.credential).length = 5 → scopeCheck a cfg.region cfg.service ≠ .ok () →
         (validate H cfg P s req).out = .err .SignatureDoesNotMatch) ∧
     (prevalidate a cfg.region cfg.service cfg.now ≠ .ok () → (validate H cfg P s req).calls = []) := by
-  sorry
+  refine ⟨fun hw => ?_, fun hw h5 => ?_, fun hw h5 hs => ?_, fun hp => ?_⟩
+  · exact (validate_of_prevalidate_err H cfg P s req a _ ha
+      (C13.prevalidate_outside a _ _ _ hrep hw)).1
+  · refine (validate_of_prevalidate_err H cfg P s req a _ ha ?_).1
+    rw [C13.prevalidate_inside a _ _ _ hrep hw]
+    exact C13.scopeCheck_not_five a _ _ h5
+  · refine (validate_of_prevalidate_err H cfg P s req a _ ha ?_).1
+    rw [C13.prevalidate_inside a _ _ _ hrep hw]
+    rcases C13.scopeCheck_five_cases a cfg.region cfg.service h5 with h | h
+    · exact absurd h hs
+    · exact h
+  · exact validate_calls_of_prevalidate_not_ok H cfg P s req a ha hp
 
 /-- Then the key lookup: a provider failure is reported as the provider's kind. Last, the signature. -/
 theorem rule_key_then_signature (a : Authenticator) (ha : authOf H cfg req = .ok a)
@@ -89,7 +122,17 @@ theorem rule_key_then_signature (a : Authenticator) (ha : authOf H cfg req = .ok
     (∀ resp st st' sts, P.ready s = (none, st) → P.call st (providerReqOf a cfg.region cfg.service) = (.ok resp, st') →
         stringToSign a = .ok sts → a.signature ≠ hexLower (hmac H resp.key sts) →
         (validate H cfg P s req).out = .err .SignatureDoesNotMatch) := by
-  sorry
+  obtain ⟨sts0, hs0⟩ := stringToSign_ok_of_prevalidate hp
+  refine ⟨fun e st hr => ?_, fun e st st' hr hc => ?_, fun resp st st' sts hr hc hs hne => ?_⟩
+  · obtain ⟨fp, hv⟩ := validate_out_of_prevalidate_ok H cfg P s req a sts0 ha hp hs0
+    rw [hv, getSigningKey_not_ready P s st a _ _ e hr]
+    rfl
+  · obtain ⟨fp, hv⟩ := validate_out_of_prevalidate_ok H cfg P s req a sts0 ha hp hs0
+    rw [hv, getSigningKey_call_err P s st st' a _ _ e hr hc]
+    rfl
+  · obtain ⟨fp, hv⟩ := validate_out_of_prevalidate_ok H cfg P s req a sts ha hp hs
+    rw [hv, getSigningKey_call_ok P s st st' a _ _ resp hr hc]
+    simp only [if_neg hne, Outcome.map_err]
 
 /-- The kind alone fixes code and status. -/
 theorem table :
@@ -107,13 +150,14 @@ theorem table :
       | .MalformedQueryString => ("MalformedQueryString", 400)
       | .MissingAuthenticationToken => ("MissingAuthenticationToken", 400)
       | .SignatureDoesNotMatch => ("SignatureDoesNotMatch", 403) := by
-  sorry
+  intro k
+  cases k <;> rfl
 
 /-- Status is 400, 403 or 500 — never a success status; 500 exactly for infrastructure failures. -/
 theorem status_classes (k : ErrKind) :
     (k.status = 400 ∨ k.status = 403 ∨ k.status = 500) ∧
     (k.status = 500 ↔ k = .IO ∨ k = .InternalServiceError) := by
-  sorry
+  cases k <;> simp [ErrKind.status]
 
 /-- Without the key provider's own errors, the entry point produces only the six built-in kinds,
 all 400 or 403; anything else — in particular every 500 — originates from the provider. -/
@@ -121,7 +165,41 @@ theorem builtin_kinds (k : ErrKind) (h : (validate H cfg P s req).out = .err k) 
     k ∈ [ErrKind.InvalidURIPath, .MalformedQueryString, .InvalidBodyEncoding, .MissingAuthenticationToken,
          .IncompleteSignature, .SignatureDoesNotMatch] ∨
     (∃ e, ((P.ready s).1 = some e ∨ ∃ pr, (P.call (P.ready s).2 pr).1 = .error e) ∧ k = e.toKind) := by
-  sorry
+  rcases authOf_cases H cfg req with ⟨a, ha⟩ | ⟨k', hk⟩ | ⟨p, hp⟩
+  · cases hpre : prevalidate a cfg.region cfg.service cfg.now with
+    | err k' =>
+      rw [(validate_of_prevalidate_err H cfg P s req a k' ha hpre).1] at h
+      cases h
+      left
+      rcases C13.prevalidate_err_kind a _ _ _ _ hpre with h' | h' <;> subst h' <;> simp
+    | panic p =>
+      obtain ⟨fp, _, _, hv⟩ := validate_of_authOf_ok H cfg P s req a ha
+      rw [hv, validateSignature_prevalidate_panic H P s a _ _ _ p hpre] at h
+      cases h
+    | ok u =>
+      cases u
+      obtain ⟨sts, hsts⟩ := stringToSign_ok_of_prevalidate hpre
+      obtain ⟨fp, hv⟩ := validate_out_of_prevalidate_ok H cfg P s req a sts ha hpre hsts
+      rw [hv] at h
+      rcases getSigningKey_cases P s a cfg.region cfg.service with
+        ⟨e, he, hg⟩ | ⟨_, e, he, hg⟩ | ⟨_, resp, _, hg⟩
+      · rw [hg] at h
+        cases h
+        exact .inr ⟨e, .inl he, rfl⟩
+      · rw [hg] at h
+        cases h
+        exact .inr ⟨e, .inr ⟨_, he⟩, rfl⟩
+      · rw [hg] at h
+        simp only at h
+        split at h
+        · cases h
+        · cases h
+          left; simp
+  · rw [validate_of_authOf_err H cfg P s req k' hk] at h
+    cases h
+    exact .inl (ErrKind.builtin_mem (authOf_err_kind H cfg req _ hk))
+  · rw [validate_of_authOf_panic H cfg P s req p hp] at h
+    cases h
 
 end SigV4.C13
 
